@@ -56,6 +56,15 @@ RULES = {"_ignore_restriction": "HIgnore", "_require_restriction": "HRequire",
          "coefficient": "HCoefficient", "facet_normal": "HFacetNormal"}
 
 
+CONT = {}     # Coefficient count -> continuous across facets (harness classification, not `in H1`)
+
+
+def coefficient(space, cont):
+    f = ufl.Coefficient(space)
+    CONT[f.count()] = bool(cont)
+    return f
+
+
 class BrokenTie(Exception):
     pass
 
@@ -198,18 +207,46 @@ Print Assumptions C17_rejects_real.
 # ----------------------------------------------------------------------------------------------
 # meshes and terminals
 
+_MESHES = None
+# mesh variants; the flag "affine non-manifold" (coordinate degree <= 1, continuous, gdim = tdim) is part of
+# the harness's description of the mesh, NOT computed with the code under test
+MESH_AFFINE_NM = {"affine": True, "manifold": False, "quadratic": False, "extruded": True}
+
+
 def meshes():
-    tri = ufl.triangle
-    return {
-        "affine": ufl.Mesh(elements.LagrangeElement(tri, 1, (2,))),
-        "manifold": ufl.Mesh(elements.LagrangeElement(tri, 1, (3,))),
-        "quadratic": ufl.Mesh(elements.LagrangeElement(tri, 2, (2,))),
-    }
+    global _MESHES
+    if _MESHES is None:
+        from ufl.cell import TensorProductCell
+        tri = ufl.triangle
+        prism = TensorProductCell(ufl.triangle, ufl.interval)
+        _MESHES = {
+            "affine": ufl.Mesh(elements.LagrangeElement(tri, 1, (2,))),
+            "manifold": ufl.Mesh(elements.LagrangeElement(tri, 1, (3,))),
+            "quadratic": ufl.Mesh(elements.LagrangeElement(tri, 2, (2,))),
+            "extruded": ufl.Mesh(elements.LagrangeElement(prism, 1, (3,))),
+        }
+    return _MESHES
 
 
 def is_affine_nm(mesh):
-    e = mesh.ufl_coordinate_element()
-    return e.embedded_superdegree <= 1 and e in H1 and mesh.geometric_dimension == mesh.topological_dimension
+    for name, m in meshes().items():
+        if m is mesh:
+            return MESH_AFFINE_NM[name]
+    raise KeyError(mesh)
+
+
+def sobolev_variants(extruded):
+    """(label, Sobolev space of the element, continuous across facets? -- the STATEMENT's classification:
+    a coefficient is continuous iff its space is contained in H1 in every direction)"""
+    import ufl.sobolevspace as S
+    out = [("H1", S.H1, True), ("L2", S.L2, False), ("H2", S.H2, True), ("HInf", S.HInf, True),
+           ("H1Div", S.H1Div, True), ("H1Curl", S.H1Curl, True), ("HDiv", S.HDiv, False),
+           ("HCurl", S.HCurl, False), ("HEin", S.HEin, False), ("HDivDiv", S.HDivDiv, False),
+           ("HCurlDiv", S.HCurlDiv, False)]
+    if extruded:
+        for orders in [(1, 1, 1), (2, 2, 1), (1, 1, 0), (0, 0, 1), (0, 1, 1), (1, 0, 1), (0, 0, 0), (2, 2, 0)]:
+            out.append(("Dir" + "".join(map(str, orders)), S.DirectionalSobolevSpace(orders), min(orders) >= 1))
+    return out
 
 
 def terminals_of(mesh):
@@ -217,10 +254,9 @@ def terminals_of(mesh):
     import ufl.classes as C
     cell = mesh.ufl_cell()
     out = []
-    cg = ufl.Coefficient(ufl.FunctionSpace(mesh, elements.LagrangeElement(cell, 1)))
-    dg = ufl.Coefficient(ufl.FunctionSpace(mesh, elements.FiniteElement("DG", cell, 1, (), identity_pullback, L2)))
-    out.append(("Coefficient-H1", cg, True))
-    out.append(("Coefficient-L2", dg, False))
+    for sname, space, cont in sobolev_variants(mesh is meshes()["extruded"]):
+        el = elements.FiniteElement("E" + sname, cell, 1, (), identity_pullback, space)
+        out.append(("Coefficient-" + sname, coefficient(ufl.FunctionSpace(mesh, el), cont), cont))
     out.append(("Argument", ufl.Argument(ufl.FunctionSpace(mesh, elements.LagrangeElement(cell, 1)), 0), True))
     out.append(("Constant", ufl.Constant(mesh), True))
     for name in ufl2coq.GEOMETRY_KINDS:
@@ -267,8 +303,9 @@ def rules_examples():
     for mname, mesh in meshes().items():
         aff = "true" if is_affine_nm(mesh) else "false"
         for label, t, cont in terminals_of(mesh):
-            if mname != "affine" and label not in ("FacetNormal", "Coefficient-H1", "Coefficient-L2", "SpatialCoordinate",
-                                                   "Jacobian", "FacetArea"):
+            if mname != "affine" and not (label in ("FacetNormal", "SpatialCoordinate", "Jacobian", "FacetArea")
+                                          or label in ("Coefficient-H1", "Coefficient-L2")
+                                          or (mname == "extruded" and label.startswith("Coefficient-"))):
                 continue
             for cur in (None, "+", "-"):
                 for drname, _ in DRS:
@@ -277,7 +314,10 @@ def rules_examples():
                     ctx = ufl2coq.Ctx()
                     ser = ufl2coq.Ser(ctx, prefix=f"r{n}_n", share=False)
                     ti = ser.expr(inp)
-                    is_cont = "true" if (label == "Coefficient-H1") else "false"
+                    # the implementation may be MORE conservative than the statement (demand a restriction of
+                    # a continuous coefficient); it must never treat a discontinuous one as continuous
+                    code_h1 = label.startswith("Coefficient-") and (t.ufl_element() in H1)
+                    is_cont = "true" if (label.startswith("Coefficient-") and cont and code_h1) else "false"
                     nm = f"rule_{n}"
                     if out is not None:
                         to = ser.expr(out)
@@ -293,7 +333,8 @@ def rules_examples():
                             f"{ti} with Error _ => true | OK _ => false end = true.\nProof. vm_compute. reflexivity. Qed.\n")
                     info.append({"lemma": nm, "mesh": mname, "terminal": label, "current": cur, "default": drname,
                                  "input": str(inp), "output": str(out) if out is not None else None, "raised": err,
-                                 "_inp": inp, "_out": out, "_affine": aff == "true"})
+                                 "_inp": inp, "_out": out, "_affine": aff == "true",
+                                 "_cont": bool(label.startswith("Coefficient-") and cont)})
                     n += 1
     return lines, info
 
@@ -310,10 +351,18 @@ class Pool:
         g = mesh.geometric_dimension
         S = lambda el: ufl.FunctionSpace(mesh, el)    # noqa: E731
         self.mesh, self.g = mesh, g
-        self.cg = ufl.Coefficient(S(elements.LagrangeElement(cell, 1)))
-        self.vcg = ufl.Coefficient(S(elements.LagrangeElement(cell, 2, (g,))))
-        self.dg = ufl.Coefficient(S(elements.FiniteElement("DG", cell, 1, (), identity_pullback, L2)))
-        self.vdg = ufl.Coefficient(S(elements.FiniteElement("DG", cell, 1, (g,), identity_pullback, L2)))
+        self.cg = coefficient(S(elements.LagrangeElement(cell, 1)), True)
+        self.vcg = coefficient(S(elements.LagrangeElement(cell, 2, (g,))), True)
+        self.dg = coefficient(S(elements.FiniteElement("DG", cell, 1, (), identity_pullback, L2)), False)
+        self.vdg = coefficient(S(elements.FiniteElement("DG", cell, 1, (g,), identity_pullback, L2)), False)
+        self.coefs = [self.cg, self.vcg, self.dg, self.vdg]
+        self.dd = None
+        if mesh is meshes()["extruded"]:
+            # continuous horizontally, discontinuous vertically: two values on a horizontal facet
+            from ufl.sobolevspace import DirectionalSobolevSpace
+            self.dd = coefficient(S(elements.FiniteElement("CGxDG", cell, 1, (), identity_pullback,
+                                                           DirectionalSobolevSpace((1, 1, 0)))), False)
+            self.coefs.append(self.dd)
         self.v = ufl.Argument(S(elements.LagrangeElement(cell, 1)), 0)
         self.c = ufl.Constant(mesh)
         self.x = ufl.SpatialCoordinate(mesh)
@@ -322,7 +371,6 @@ class Pool:
         self.hd = ufl.CellDiameter(mesh)
         self.fa = ufl.FacetArea(mesh)
         self.J = ufl.Jacobian(mesh)
-        self.coefs = [self.cg, self.vcg, self.dg, self.vdg]
 
 
 NCONT = 2
@@ -409,7 +457,7 @@ def fixed_integrands(p):
     i = ufl.Index()
     return [
         ufl.jump(dg) * ufl.avg(v) * cg,
-        ufl.dot(ufl.jump(vdg), n("+")) * v("-") + x[0] * cg * dg("+"),
+        ufl.dot(ufl.jump(vdg), n("+")) * v("-") + x[0] * cg * dg("+") * v("+"),
         ufl.dot(ufl.avg(ufl.grad(dg)), n("-")) * ufl.jump(v),
         (dg * ufl.dot(vdg, n))("-") * v("+"),
         ufl.jump(vdg, n) * p.c * p.fa,
@@ -422,7 +470,11 @@ def fixed_integrands(p):
         (p.J[0, 0] * p.hd)("+") * (p.J[1, 0] * ufl.sqrt(p.h))("-") * v("+"),
         (cg + x[0] + p.c) * p.fa,
         abs(ufl.jump(dg)) ** 2 * ufl.avg(v) + ufl.sin(cg("-")) * v("+"),
-    ]
+    ] + ([] if p.dd is None else [
+        p.dd("+") * v("-") * cg,
+        ufl.jump(p.dd) * ufl.avg(v) + p.dd("-") * x[2] * v("+"),
+        (p.dd * dg)("-") * ufl.dot(vdg("+"), n("+")) * v("+"),
+    ])
 
 
 def t2_header():
@@ -462,7 +514,8 @@ Ltac u1 :=
   | |- context [cmp ?o ?X ?P] => match goal with |- context [cmp o ?Y ?Q] => first [try_unify X Y | try_unify P Q] end
   | |- context [cond_ ?B ?X ?P] => match goal with |- context [cond_ ?C ?Y ?Q] => first [try_unify X Y | try_unify P Q] end
   end.
-Ltac close17 := intros Ha; norm_goal; repeat canon1 Ha; repeat u1; first [ reflexivity | ring ].
+Ltac close17 := intros Ha; norm_goal; repeat canon1 Ha;
+  first [ reflexivity | ring | repeat u1; first [ reflexivity | ring ] ].
 '''
 
 
@@ -500,14 +553,77 @@ def build_t2(run):
     raised = []
     for nm, p, mname, e, cls in plan:
         aff = "true" if is_affine_nm(p.mesh) else "false"
-        for drname in ("dplus", "none") if cls == "fixed" else ("dplus",):
+        for drname in ("dplus", "none") if (cls == "fixed" and mname == "affine") else ("dplus",):
             out, err = run_real(e, p.mesh, drname)
             note = {"class": cls, "mesh": mname, "default": drname, "integrand": str(e)[:300]}
             if out is None:
                 raised.append((nm, e, p, drname, err))
                 continue
             cases.append(RCase(f"{nm}_{drname}", out, e, p, aff, note, once=(drname == "dplus")))
+    # the same through the form pipeline (compute_form_data), for EVERY interior-facet integral type
+    for mname, mlabel, measure in PIPE_MEASURES:
+        p = Pool(ms[mname])
+        aff = "true" if is_affine_nm(p.mesh) else "false"
+        for k, e in enumerate(fixed_integrands(p)):
+            if mlabel == "dS_v" and k % 2 and k < 14 and run.tier == "quick":
+                continue
+            for defaults in (True, False) if k in (0, 3, 12) else (True,):
+                nm = f"P_{mlabel}_{k}_{'on' if defaults else 'off'}"
+                note = {"class": "pipeline", "mesh": mname, "measure": mlabel, "default": "dplus" if defaults else "none",
+                        "integrand": str(e)[:300], "call": f"compute_form_data(integrand*{mlabel}, "
+                                                           f"do_apply_default_restrictions={defaults})"}
+                out, itype, err = pipeline_integrand(e, measure, defaults)
+                if out is None:
+                    raised.append((nm, e, p, note["call"], err))
+                    continue
+                note["integral_type"] = itype
+                cases.append(RCase(nm, out, e, p, aff, note, once=defaults))
     return cases, raised
+
+
+PIPE_MEASURES = [("affine", "dS", ufl.dS), ("extruded", "dS_h", ufl.dS_h), ("extruded", "dS_v", ufl.dS_v)]
+
+
+def pipeline_integrand(e, measure, defaults=True):
+    """integrand of the single integral of compute_form_data(e*measure) (no pullbacks / scaling / geometry
+    lowering: algebra lowering, derivatives and restriction propagation only)"""
+    from ufl.algorithms import compute_form_data
+    try:
+        fd = compute_form_data(e * measure, do_apply_default_restrictions=defaults)
+    except KeyboardInterrupt:
+        raise
+    except BaseException as ex:      # ArityMismatch derives from BaseException
+        return None, None, f"{type(ex).__name__}: {ex}"
+    itgs = [(d.integral_type, i) for d in fd.integral_data for i in d.integrals]
+    if len(itgs) != 1:
+        return None, None, f"expected one integral, got {len(itgs)}"
+    return itgs[0][1].integrand(), itgs[0][0], None
+
+
+def pipeline_rejections():
+    """missing / double restrictions must be rejected by compute_form_data for every interior-facet type"""
+    lines, fails, k = [], [], 0
+    for mname, mlabel, measure in PIPE_MEASURES:
+        p = Pool(meshes()[mname])
+        dg, cg, v, n = p.dg, p.cg, p.v, p.n
+        bad = [("missing", dg * v("+")), ("missing", ufl.grad(cg)[0] * v("+")), ("missing", n[0] * dg("+") * v("+")),
+               ("missing", cg * v), ("double", dg("+")("-") * v("+")), ("double", (cg * dg("-"))("+") * v("-"))]
+        if p.dd is not None:
+            bad += [("missing", p.dd * v("+")), ("missing", cg * p.dd * v("-")), ("double", p.dd("-")("-") * v("+"))]
+        for cls, e in bad:
+            out, itype, err = pipeline_integrand(e, measure, True)
+            ser = ufl2coq.Ser(ctx_for(p), prefix=f"q{k}_n", share=False)
+            ti = ser.expr(e)
+            chk = "true" if cls == "missing" else "false"
+            lines.append(f"(* pipeline {mlabel} {cls}: {str(e)[:100]}  real code: {err or 'ACCEPTED'} *)\n"
+                         f"Example prej_{k} : bad table (fun id => Nat.ltb id {NCONT}) true {chk} false {ti} = true.\n"
+                         f"Proof. vm_compute. reflexivity. Qed.\n")
+            if err is None:
+                fails.append({"class": cls, "integrand": str(e), "measure": mlabel, "mesh": mname,
+                              "call": f"compute_form_data(integrand*{mlabel})",
+                              "observed": f"accepted, integrand {out}", "expected": "an exception"})
+            k += 1
+    return lines, fails
 
 
 def rejection_checks(run):
@@ -574,6 +690,9 @@ def main(run):
         vlib.write_if_changed(path, head + "".join(lines[k::nshard]))
         paths.append(path)
     rej_lines, rej_fails = rejection_checks(run)
+    pl, pf_ = pipeline_rejections()
+    rej_lines += pl
+    rej_fails += pf_
     rej_path = os.path.join(vlib.GEN, "C17_rej.v")
     vlib.write_if_changed(rej_path, head + "".join(rej_lines))
     by_lemma = {d["lemma"]: d for d in info}
@@ -618,17 +737,17 @@ def main(run):
         run.count_case(("rule", d["mesh"], d["terminal"], d["current"], d["default"]))
     for f in rej_fails:
         run.violation(dict(f, what="the implementation accepts an integrand that must be rejected",
-                           reproduce="apply_restrictions(integrand, default_restrictions={mesh: '+'})"), True)
+                           reproduce=f.get("call", "apply_restrictions(integrand, default_restrictions={mesh: '+'})")), True)
     # ---- T2
     cases, raised = build_t2(run)
     for nm, e, p, drname, err in raised:
-        run.violation({"what": "apply_restrictions raised on a properly restricted interior-facet integrand",
+        run.violation({"what": "restriction propagation raised on a properly restricted interior-facet integrand",
                        "case": nm, "integrand": str(e), "default_restrictions": drname, "raised": err}, True)
     for c in cases[:4] + cases[-3:]:
         run.sample({"case": c.name, "note": c.note, "output": str(c.out)[:300]})
     failing = [] if table_broken else coqgen.emit_and_check(run, "C17", cases, extra_header=t2_header(), timeout=500)
     for c in cases:
-        run.count_case(("integrand", c.note["mesh"], c.note["default"], c.note["integrand"]))
+        run.count_case(("integrand", c.note["mesh"], c.note.get("measure"), c.note["default"], c.note["integrand"]))
     seen = set()
     for case, lemma, msg in failing:
         if case is None:
@@ -696,7 +815,7 @@ def two_sided_mismatch(out, inp, affine, trials=30, seed=0):
             if n in SIDE_INDEPENDENT:
                 return False
             if n == "Coefficient":
-                return t.ufl_element() not in H1
+                return not CONT[t.count()]      # the statement's classification, registered by the harness
             return True
 
         def t_FacetNormal(self, t, comp, side):
@@ -725,7 +844,7 @@ def rule_witness(d):
     if w:
         return dict(base, two_sided_values=w)
     name = d["terminal"].split("-")[0]
-    side_dep = name not in SIDE_INDEPENDENT and d["terminal"] != "Coefficient-H1"
+    side_dep = name not in SIDE_INDEPENDENT and not d.get("_cont", False)
     if side_dep and d["current"] is None and d["default"] in ("dplus", "dminus") \
             and not isinstance(d["_out"], ufl.classes.Restricted):
         return dict(base, note="unrestricted side-dependent terminal accepted under a default restriction")
